@@ -24,6 +24,17 @@ func Val(b []byte) util.MPTSerializable {
 	return &util.SecureSerializableValue{Buffer: append([]byte(nil), b...)}
 }
 
+// InsertReused inserts v through a value object that the caller goes on using: the object's buffer is overwritten
+// right after the call returns (a caller that fills one value object in a loop).
+func InsertReused(mpt *util.MerklePatriciaTrie, path string, v []byte) (util.Key, error) {
+	obj := &util.SecureSerializableValue{Buffer: append([]byte(nil), v...)}
+	root, err := mpt.Insert(util.Path(path), obj)
+	for i := range obj.Buffer {
+		obj.Buffer[i] ^= 0xa5
+	}
+	return root, err
+}
+
 // FreshCache returns a transaction cache on a brand-new state cache stack.
 func FreshCache() *statecache.TransactionCache {
 	sc := statecache.NewStateCache()
